@@ -610,7 +610,10 @@ func bFor(intp *Interpreter) error {
 	if !ok {
 		return intp.e(eTypecheck, "for: invalid limit")
 	}
-	proc := intp.Stack[len(intp.Stack)-1]
+	proc, ok := intp.Stack[len(intp.Stack)-1].(Procedure)
+	if !ok {
+		return intp.e(eTypecheck, "for: needs a procedure")
+	}
 	intp.Stack = intp.Stack[:len(intp.Stack)-4]
 	val := initial
 	for {
@@ -775,7 +778,10 @@ func bIf(intp *Interpreter) error {
 	if !ok {
 		return intp.e(eTypecheck, "if: invalid condition")
 	}
-	proc := intp.Stack[len(intp.Stack)-1]
+	proc, ok := intp.Stack[len(intp.Stack)-1].(Procedure)
+	if !ok {
+		return intp.e(eTypecheck, "if: needs a procedure")
+	}
 	intp.Stack = intp.Stack[:len(intp.Stack)-2]
 	if cond {
 		return intp.executeOne(proc, true)
@@ -791,8 +797,14 @@ func bIfelse(intp *Interpreter) error {
 	if !ok {
 		return intp.e(eTypecheck, "ifelse: invalid condition")
 	}
-	proc1 := intp.Stack[len(intp.Stack)-2]
-	proc2 := intp.Stack[len(intp.Stack)-1]
+	proc1, ok := intp.Stack[len(intp.Stack)-2].(Procedure)
+	if !ok {
+		return intp.e(eTypecheck, "ifelse: needs a procedure")
+	}
+	proc2, ok := intp.Stack[len(intp.Stack)-1].(Procedure)
+	if !ok {
+		return intp.e(eTypecheck, "ifelse: needs a procedure")
+	}
 	intp.Stack = intp.Stack[:len(intp.Stack)-3]
 	if cond {
 		return intp.executeOne(proc1, true)
@@ -898,7 +910,10 @@ func bLoop(intp *Interpreter) error {
 	if len(intp.Stack) < 1 {
 		return intp.e(eStackunderflow, "loop: not enough arguments")
 	}
-	proc := intp.Stack[len(intp.Stack)-1]
+	proc, ok := intp.Stack[len(intp.Stack)-1].(Procedure)
+	if !ok {
+		return intp.e(eTypecheck, "loop: needs a procedure")
+	}
 	intp.Stack = intp.Stack[:len(intp.Stack)-1]
 	for {
 		err := intp.executeOne(proc, true)
